@@ -382,6 +382,9 @@ class Prover:
             return self._by_type(t)
         if k == "call":
             n = t[1]
+            if n in ("std::iter::Iterator::count",) or n.endswith("as std::iter::Iterator>::count"):
+                l = self.iter_len(t[2][0], bb, d)
+                return (0, l[1])
             if n in ("<T as std::convert::Into<U>>::into", "<usize as std::convert::From<u8>>::from") or n.endswith("as std::convert::From<u8>>::from") or n.startswith("std::convert::num::<impl std::convert::From<") or n.startswith("core::convert::num::<impl std::convert::From<"):
                 inner = self._rng(t[2][0], bb, d)
                 tr = self._by_type(t)
@@ -783,7 +786,11 @@ class Prover:
                 return (0, INF)
             if n == "take":
                 s = self.rng(a[1], bb)
-                return (0, s[1])
+                l = self.iter_len(a[0], bb, d + 1)
+                return (0, min(s[1], l[1]))
+            if n in ("take_while", "filter", "skip_while", "map", "copied", "cloned", "rev", "inspect", "filter_map", "map_while", "peekable", "fuse", "by_ref"):
+                l = self.iter_len(a[0], bb, d + 1)
+                return (0, l[1]) if n in ("take_while", "filter", "skip_while", "filter_map", "map_while") else l
         return (0, INF)
 
     def range_item(self, t):
@@ -883,7 +890,7 @@ def _is_iter_term(t):
     t = strip(t)
     if t[0] == "agg" and t[2] == "std::ops::Range":
         return True
-    return util.is_call(t) and t[1].split("::")[-1] in ("iter", "iter_mut", "enumerate", "step_by", "skip", "zip", "cycle", "chars", "take", "into_iter", "rev")
+    return util.is_call(t) and t[1].split("::")[-1] in ("iter", "iter_mut", "enumerate", "step_by", "skip", "zip", "cycle", "chars", "take", "into_iter", "rev", "take_while", "filter", "map", "copied", "cloned", "skip_while")
 
 
 def _monotone_up(vv, phi):
